@@ -74,8 +74,19 @@ func (e *DefaultExecutor) Execute(ctx context.Context, job *Job) ([]byte, error)
 		return nil, err
 	}
 
-	env := e.env
-	env = append(env, utils.ConvertEnv(utils.ConvertToMapOfStrings(job.Env.Map()))...)
+	// the job's environment overrides the parent process environment by name;
+	// expand.ListEnviron sorts whole "name=value" strings before dropping
+	// duplicates, so duplicates must not reach it
+	envMap := make(map[string]string, len(e.env))
+	for _, kv := range e.env {
+		if sep := strings.IndexByte(kv, '='); sep > 0 {
+			envMap[kv[:sep]] = kv[sep+1:]
+		}
+	}
+	for k, v := range utils.ConvertToMapOfStrings(job.Env.Map()) {
+		envMap[k] = v
+	}
+	env := utils.ConvertEnv(envMap)
 
 	if job.Dir == "" {
 		job.Dir = e.dir
